@@ -16,9 +16,11 @@ package quic
 // Shuffle swap index is answered by the harness (c09Enum).
 
 import (
+	"encoding/binary"
 	"fmt"
 	"sort"
 	"strings"
+	"sync"
 
 	"github.com/refraction-networking/uquic/internal/verifmc/explore"
 	"github.com/refraction-networking/uquic/internal/verifmc/vrand"
@@ -26,13 +28,48 @@ import (
 
 // c09F is the byte at absolute CRYPTO stream offset i. It is never 0 (so zero-extension
 // is visible) and f(i) != f(i+k) for 0 < |k| < 255 (so shifts are visible).
-func c09F(i int) byte { return byte(1 + (i*7+(i/251)*13)%255) }
+func c09F(i int) byte {
+	if i >= 0 && i < len(c09FT) {
+		return c09FT[i]
+	}
+	return c09FSlow(i)
+}
+
+func c09FSlow(i int) byte { return byte(1 + (i*7+(i/251)*13)%255) }
+
+var c09FT = func() (t [20480]byte) {
+	for i := range t {
+		t[i] = c09FSlow(i)
+	}
+	return
+}()
 
 const c09Poison = 0xEE // never equal to c09F at the position where it could be read
 
 // c09Slice returns stream bytes [base, base+n) with 8 spare bytes of capacity that hold
 // poison (a builder that reslices past len emits them and is caught by the byte check).
 func c09Slice(base, n int) []byte {
+	k := [2]int{base, n}
+	if b, ok := c09SliceCache[k]; ok {
+		// the builders must not write into the stream they are handed; re-checked here
+		for i := 0; i < n; i += 97 {
+			if b[i] != c09F(base+i) {
+				panic("C09 harness: the code under test modified the CRYPTO data it was given")
+			}
+		}
+		return b[:n]
+	}
+	b := c09MakeSlice(base, n)
+	if len(c09SliceCache) < 4096 {
+		c09SliceCache[k] = b[:n+8]
+	}
+	return b
+}
+
+// one enumeration runs at a time per process (the draw hook is global), so is this cache
+var c09SliceCache = map[[2]int][]byte{}
+
+func c09MakeSlice(base, n int) []byte {
 	b := make([]byte, n+8)
 	for i := 0; i < n; i++ {
 		b[i] = c09F(base + i)
@@ -77,6 +114,9 @@ func c09Parse(b []byte) (frames []c09Frame, bad string) {
 		switch b[i] {
 		case 0x00:
 			j := i
+			for j+8 <= len(b) && binary.LittleEndian.Uint64(b[j:]) == 0 {
+				j += 8
+			}
 			for j < len(b) && b[j] == 0 {
 				j++
 			}
@@ -230,8 +270,27 @@ func c09Cap(n, m int) int {
 
 // class summarises what was observed (an outcome class, never a verdict).
 func (c *c09Cover) class() string {
-	return fmt.Sprintf("crypto=%d empty=%d ping=%d padruns=%d offw=%s dup=%v asc=%v", c09Cap(c.nCrypto, 6), c09Cap(c.nEmpty, 2), c09Cap(c.nPing, 3), c09Cap(c.nPadRuns, 4), c09WidthClass(c.widths), c.dup, c.order)
+	b := func(v bool) uint32 {
+		if v {
+			return 1
+		}
+		return 0
+	}
+	k := uint32(c09Cap(c.nCrypto, 6)) | uint32(c09Cap(c.nEmpty, 2))<<3 | uint32(c09Cap(c.nPing, 3))<<5 | uint32(c09Cap(c.nPadRuns, 4))<<7 | uint32(c.widths)<<10 | b(c.dup)<<14 | b(c.order)<<15
+	c09ClassMu.Lock()
+	defer c09ClassMu.Unlock()
+	if s, ok := c09ClassCache[k]; ok {
+		return s
+	}
+	s := fmt.Sprintf("crypto=%d empty=%d ping=%d padruns=%d offw=%s dup=%v asc=%v", c09Cap(c.nCrypto, 6), c09Cap(c.nEmpty, 2), c09Cap(c.nPing, 3), c09Cap(c.nPadRuns, 4), c09WidthClass(c.widths), c.dup, c.order)
+	c09ClassCache[k] = s
+	return s
 }
+
+var (
+	c09ClassMu    sync.Mutex
+	c09ClassCache = map[uint32]string{}
+)
 
 // c09CheckFlight applies the whole oracle to the payloads of one flight.
 func c09CheckFlight(payloads [][]byte, base, n int) (kind, msg, class string) {
@@ -294,6 +353,7 @@ type c09EnumResult struct {
 	Fail       *explore.Fail
 	FailDraws  []uint64 // the draw values of the failing execution
 	MaxDraws   int
+	Dev        int // deviation bound used by the reduced mode
 	DomProduct float64
 }
 
@@ -349,10 +409,13 @@ func (en *c09Enum) run(one func() *explore.Fail) (res c09EnumResult) {
 	}
 	// probes: the first k draws maximal, the rest minimal; they estimate the size of the draw tree
 	est := 1.0
+	var doms []uint64 // the domains along the probe with the largest product
 	for k := 0; k <= 4; k++ {
 		i, prod := 0, 1.0
+		var cur []uint64
 		exec(func(_ vrand.Site, n uint64) uint64 {
 			prod *= float64(n)
+			cur = append(cur, n)
 			i++
 			if i <= k {
 				return n - 1
@@ -363,8 +426,9 @@ func (en *c09Enum) run(one func() *explore.Fail) (res c09EnumResult) {
 			res.Mode = "probe"
 			return res
 		}
-		if prod > est {
-			est = prod
+		if prod > est || doms == nil {
+			est = max(est, prod)
+			doms = cur
 		}
 		if i == 0 {
 			res.Mode = "none"
@@ -386,8 +450,33 @@ func (en *c09Enum) run(one func() *explore.Fail) (res c09EnumResult) {
 		}
 		// the estimate was too low: fall through to the bounded mode and say so
 	}
+	// bounded mode: the largest deviation bound <= MaxDev whose (estimated) number of draw
+	// sequences fits RedCap; at least 1
+	dev := 1
+	for d := en.MaxDev; d > 1; d-- {
+		sym := make([]float64, d+1) // elementary symmetric sums of (domain-1)
+		sym[0] = 1
+		for _, n := range doms {
+			a := float64(n - 1)
+			if n > c09BigDomain {
+				a = float64(len(en.reps(n)) - 1)
+			}
+			for k := d; k >= 1; k-- {
+				sym[k] += sym[k-1] * a
+			}
+		}
+		tot := 0.0
+		for _, x := range sym {
+			tot += x
+		}
+		if tot <= float64(en.RedCap) {
+			dev = d
+			break
+		}
+	}
 	res.Mode = "reduced"
-	r := explore.EnumerateChoices(en.MaxDev, en.RedCap, stop, func(c *explore.Chooser) {
+	res.Dev = dev
+	r := explore.EnumerateChoices(dev, 8*en.RedCap, stop, func(c *explore.Chooser) {
 		exec(func(_ vrand.Site, n uint64) uint64 {
 			if n <= c09BigDomain {
 				return uint64(c.Choose(int(n)))
@@ -435,6 +524,7 @@ func c09Safe(keyPrefix string, fn func() *explore.Fail) (f *explore.Fail) {
 type c09Acc struct {
 	out                                    *explore.OutcomeSet
 	exh, red, none, capped                 int64
+	devs                                   [4]int64
 	maxDraws                               int
 	samples                                []any
 }
@@ -447,6 +537,7 @@ func (a *c09Acc) note(r c09EnumResult) {
 		a.exh++
 	case "reduced":
 		a.red++
+		a.devs[min(r.Dev, 3)]++
 	default:
 		a.none++
 	}
@@ -465,10 +556,11 @@ func (a *c09Acc) finish(rep *explore.Report, rule, bound string) *explore.Report
 	rep.Rule = rule
 	rep.Bound = bound
 	if a.exh+a.red > 0 {
-		rep.Bound += fmt.Sprintf("; draws of this shard: %d configurations enumerated exhaustively, %d deviation-bounded over representative values (%d of them hit the execution cap), %d without any draw; longest draw sequence %d", a.exh, a.red, a.capped, a.none, a.maxDraws)
+		rep.Bound += fmt.Sprintf("; draws of this shard: %d configurations enumerated exhaustively, %d deviation-bounded over representative values (<=3/2/1 non-minimal draws: %d/%d/%d configurations; %d hit the execution cap), %d without any draw; longest draw sequence %d", a.exh, a.red, a.devs[3], a.devs[2], a.devs[1], a.capped, a.none, a.maxDraws)
 	}
 	if a.capped > 0 {
 		rep.Caps = append(rep.Caps, "draw-cap")
+		rep.Exhaustive = false
 	}
 	rep.Samples = a.samples
 	return rep
